@@ -308,7 +308,60 @@ var shimOf = map[string]string{
 	"net/http":  "http",
 	"os/exec":   "exec",
 	"math/rand": "rand",
+	"time":      "time",
+	"context":   "context",
 	// "flag" is per binary, see below
+}
+
+// libShimOf: what the library packages get. The clock seam, and the file
+// system in case a tree moves its file reading into library functions.
+// math/rand stays real there: a library that draws random numbers is
+// nondeterministic across processes, which is for C15 to see.
+var libShimOf = map[string]string{
+	"os":        "os",
+	"io/ioutil": "ioutil",
+	"time":      "time",
+	"context":   "context",
+}
+
+// shimLibrary points the effectful imports of the library package in dir at
+// the shims.
+func shimLibrary(dir string) {
+	ents, err := os.ReadDir(dir)
+	if err != nil {
+		die("%v", err)
+	}
+	fset := token.NewFileSet()
+	for _, e := range ents {
+		n := e.Name()
+		if e.IsDir() || !strings.HasSuffix(n, ".go") || strings.HasSuffix(n, "_test.go") {
+			continue
+		}
+		fn := filepath.Join(dir, n)
+		af, err := parser.ParseFile(fset, fn, nil, parser.ParseComments)
+		if err != nil {
+			die("parse %s: %v", fn, err)
+		}
+		changed := false
+		for _, im := range af.Imports {
+			p, _ := strconv.Unquote(im.Path.Value)
+			shim, ok := libShimOf[p]
+			if !ok {
+				continue
+			}
+			local := filepath.Base(p)
+			if im.Name != nil {
+				local = im.Name.Name
+			}
+			im.Name = ast.NewIdent(local)
+			im.Path.Value = strconv.Quote(shimPrefix + shim)
+			rep.ShimmedImport = append(rep.ShimmedImport, fmt.Sprintf("%s: %s -> %s", fn, p, shimPrefix+shim))
+			changed = true
+		}
+		if changed {
+			writeFile(fset, af, fn)
+		}
+	}
 }
 
 // convertMain turns the single-file main package in dir into an importable
@@ -391,6 +444,8 @@ func main() {
 	instrumentMapRanges(r, r, ".", true)
 	instrumentMapRanges(r, filepath.Join(r, "v2"), ".", false)
 	instrumentMapRanges(r, r, "./lib", false)
+	shimLibrary(filepath.Join(r, "v2"))
+	shimLibrary(filepath.Join(r, "lib"))
 	convertMain(filepath.Join(r, "v2", "jd"), "jdv2", "flagv2")
 	convertMain(r, "jdtop", "flagtop")
 	sort.Slice(rep.MapRangeSites, func(i, j int) bool { return rep.MapRangeSites[i].Site < rep.MapRangeSites[j].Site })
